@@ -21,8 +21,8 @@ open Nebula.Driver Nebula.Coalesce
 open Nebula.Spec
 
 structure St where
-  tso : Bool := true
-  uso : Bool := true
+  /-- the coalescer between batches: capability flags and the slot pools carried from earlier flushes -/
+  m : Multi := {}
   staged : List Staged := []      -- reverse arrival order
   forged : Bool := false
 
@@ -134,7 +134,7 @@ def commitTag (sp : Staged) : String :=
 
 def step (s : St) (args : List String) (impl : String) : St × Out :=
   match args with
-  | ["reset", a, b] => ({ tso := a == "1", uso := b == "1" }, { model := "ok", tag := "triv:reset" })
+  | ["reset", a, b] => ({ m := { tso := a == "1", uso := b == "1" } }, { model := "ok", tag := "triv:reset" })
   | [op, e, c, pr, fr, ih, hex] =>
     if op != "c" && op != "cf" then (s, badOp) else
     match natArg e, natArg c, natArg pr, natArg ih, hexToBytes hex with
@@ -156,15 +156,20 @@ def step (s : St) (args : List String) (impl : String) : St × Out :=
     | _, _, _, _, _ => (s, badOp)
   | ["flush"] =>
     let ins := s.staged.reverse
-    let ws := flushBatch s.tso s.uso ins
-    let m := showWrs ws
+    -- the checked, pooled model: every Go slice bound is asserted, slot objects are recycled
+    let (m, ws, next) :=
+      match s.m.roundC ins with
+      | .ok (ws, m') => (showWrs ws, ws, m')
+      | .error e => ("PANIC " ++ e, [], (s.m.round ins).2)
     let verdict :=
       if s.forged then "ok" else
       match parseWrs impl with
       | none => "bad unparsable-answer " ++ impl.take 80
       | some iw => oracle ins iw
-    ({ s with staged := [], forged := false },
-     { model := m, verdict := verdict, tag := (if s.forged then "forged-" else "") ++ flushTag ws })
+    ({ m := next, staged := [], forged := false },
+     { model := m, verdict := verdict,
+       tag := (if s.forged then "forged-" else "") ++ flushTag ws ++
+         (if s.m.tcp.pool.isEmpty && s.m.udp.pool.isEmpty then "" else "-reused") })
   | _ => (s, badOp)
 
 def main : IO Unit := runEngine ({} : St) step
